@@ -76,8 +76,6 @@ package cram
 //@ trusted func ext:fmt.Sprintf
 //@ trusted func ext:encoding/binary.littleEndian.Uint32
 //@   requires len(b) >= 4
-//@ trusted func ext:github.com/biogo/hts/sam.Header.UnmarshalText
-//@   modifies all(bh), objects(sam.Reference)
 //@ func Slice.readFrom
 //@   mode bv
 //@   anymode
@@ -96,8 +94,9 @@ package cram
 //@   mode int
 //@   props C11
 //@   decoder
+//@   assumes pre Header.UnmarshalText @size
 //@   requires b != nil
-//@   modifies b.blockData, b.method, objects(sam.Reference)
+//@   modifies b.blockData, b.method, objects(sam.Reference), arrays(*sam.Reference), arrays(*sam.ReadGroup), arrays(*sam.Program), arrays(sam.tagPair), arrays(string)
 
 // Block.readFrom and Container.readFrom (C11): sizes decoded from the stream
 // are checked before they size an allocation.
